@@ -234,6 +234,7 @@ fn via_name(v: &Via) -> &'static str {
         Via::Direct => "direct",
         Via::Thread => "thread",
         Via::Props { .. } => "props",
+        Via::TraceOnly { .. } => "trace-only",
         Via::Header { spec, .. } => header_kind(spec),
         Via::Remote => "remote",
     }
@@ -679,7 +680,7 @@ impl<'a> Oracle<'a> {
                                 }
                             }
                         }
-                        Via::Props { .. } => unreachable!("not generated for C18"),
+                        Via::Props { .. } | Via::TraceOnly { .. } => unreachable!("not generated for C18"),
                     };
                     self.walk(child, &child_outer, vn);
                     self.expect_tp(
